@@ -510,8 +510,8 @@ def symbolic_map(interp: Interp, node, gen, seq: SSeq, frame, kind):
     j = ctx.fresh_int("cj")
     # evaluate under the assumption 0 <= j < n, in a *sub-context* so that no branching leaks out
     saved_pc_len = len(ctx.pc)
-    ctx.solver.push()
-    ctx.solver.add(seq.inrange(j))
+    ctx.qsolver.push()
+    ctx.qsolver.add(seq.inrange(j))
     ctx.pc.append(seq.inrange(j))
     guard = _NoBranch(ctx)
     try:
@@ -521,7 +521,7 @@ def symbolic_map(interp: Interp, node, gen, seq: SSeq, frame, kind):
         added = list(ctx.pc[saved_pc_len + 1 :])
     finally:
         del ctx.pc[saved_pc_len:]
-        ctx.solver.pop()
+        ctx.qsolver.pop()
     # side conditions (e.g. index found, in range) must hold for all j, else the comprehension raises
     side_terms = []
     for cond, exc in guard.side:
@@ -563,9 +563,9 @@ class _NoBranch:
                 return True
             if z3.is_false(c):
                 return False
-            if ctx.solver.check(z3.Not(c)) == z3.unsat:
+            if ctx.qsolver.entails(c):
                 return True
-            if ctx.solver.check(c) == z3.unsat:
+            if ctx.qsolver.entails(z3.Not(c)):
                 return False
             pend = getattr(ctx, "_pending_side", None)
             if pend is not None:
@@ -630,7 +630,10 @@ def value_getattr(interp, obj, name):
         return BoundMethod(_ValueMethod(m), obj)
     if isinstance(obj, Opaque):
         if name in obj.attrs:
-            return obj.attrs[name]
+            v = obj.attrs[name]
+            if isinstance(v, SOpt):
+                v = obj.attrs[name] = interp.resolve(v)
+            return v
         sub = Opaque(f"{obj.tag}.{name}")
         obj.attrs[name] = sub
         return sub
@@ -790,7 +793,7 @@ def seq_method(interp, obj, name, args, kwargs):
         ax = z3.And(s.inrange(r), to_z3(compare("==", s.at(r), x)), z3.ForAll([i], z3.Implies(z3.And(i >= 0, i < r), z3.Not(to_z3(compare("==", s.at(i), x))))))
         ctx.ghost.setdefault("axioms", []).append(ax)
         ctx.pc.append(ax)
-        ctx.solver.add(ax)
+        ctx.qsolver.add(ax)
         return wrap(r)
     if name in ("append", "extend") and isinstance(obj, SList):
         if name == "append":
@@ -1605,3 +1608,156 @@ def _warn(interp, args, kwargs):
         cat = type(msg)
     interp.ctx.event("warn", cat, msg)
     return None
+
+
+# ================================================================================================
+# dict methods with symbolic keys on concrete dicts
+# ================================================================================================
+
+
+def _dict_get(interp, d, args, kwargs):
+    key = interp.resolve(args[0])
+    default = args[1] if len(args) > 1 else None
+    for k in d:
+        r = _key_eq(key, k)
+        if r is True or (r is not False and interp.ctx.branch(to_z3(r))):
+            return d[k]
+    return default
+
+
+METHOD_MODELS[(dict, "get")] = _dict_get
+
+
+# ================================================================================================
+# small linear algebra (closed forms; trusted axioms)
+# ================================================================================================
+
+
+def _vec3(interp, a):
+    a = interp.resolve(a)
+    if isinstance(a, SArr) and a.ndim == 1 and interp.concrete_int(a.shape[0]) == 3:
+        return [a.get((z3.IntVal(k),)) for k in range(3)]
+    raise OutsideSubset("3-vector expected")
+
+
+def _sqrt_of(interp, sq, tag):
+    """r >= 0 with r*r == sq (sq >= 0)."""
+    r = interp.ctx.fresh_real(tag)
+    interp.ctx.assume(z3.And(r >= 0, r * r == sq))
+    return SReal(r)
+
+
+@model(np.linalg.norm)
+def _np_norm(interp, args, kwargs):
+    a = interp.resolve(args[0])
+    if len(args) > 1 or kwargs:
+        raise OutsideSubset("norm with ord/axis")
+    if isinstance(a, SArr):
+        dims = [interp.concrete_int(s) for s in a.shape]
+        if any(d is None for d in dims) or a.ndim > 2:
+            raise OutsideSubset("norm of an array of symbolic shape")
+        import itertools as _it
+
+        sq = z3.RealVal(0)
+        for idx in _it.product(*[range(d) for d in dims]):
+            t = _coerce(a.get(tuple(z3.IntVal(i) for i in idx)), "float")
+            sq = sq + t * t
+        return _sqrt_of(interp, sq, "norm")
+    return interp.native(np.linalg.norm, args, kwargs)
+
+
+@model(np.cross)
+def _np_cross(interp, args, kwargs):
+    if all_concrete(args):
+        return interp.native(np.cross, args, kwargs)
+    a, b = _vec3(interp, as_array(interp, args[0])), _vec3(interp, as_array(interp, args[1]))
+    c = [a[1] * b[2] - a[2] * b[1], a[2] * b[0] - a[0] * b[2], a[0] * b[1] - a[1] * b[0]]
+    return SArr((3,), lambda idx: _table_terms(c, idx[0]), "float")
+
+
+def _table_terms(ts, i):
+    i = z3.simplify(i)
+    if z3.is_int_value(i):
+        return ts[i.as_long()]
+    r = ts[-1]
+    for k in range(len(ts) - 2, -1, -1):
+        r = z3.If(i == k, ts[k], r)
+    return r
+
+
+@model(np.linalg.det)
+def _np_det(interp, args, kwargs):
+    a = interp.resolve(args[0])
+    if isinstance(a, SArr):
+        if a.ndim != 2 or interp.concrete_int(a.shape[0]) != 3 or interp.concrete_int(a.shape[1]) != 3:
+            raise OutsideSubset("det of a non 3x3 symbolic matrix")
+        m = [[_coerce(a.get((z3.IntVal(i), z3.IntVal(j))), "float") for j in range(3)] for i in range(3)]
+        d = m[0][0] * (m[1][1] * m[2][2] - m[1][2] * m[2][1]) - m[0][1] * (m[1][0] * m[2][2] - m[1][2] * m[2][0]) + m[0][2] * (m[1][0] * m[2][1] - m[1][1] * m[2][0])
+        return SReal(d)
+    return interp.native(np.linalg.det, args, kwargs)
+
+
+# ---- opaque matrices (for contracts stated over matrix algebra) ---------------------------------
+MatSort = z3.DeclareSort("Mat")
+mat_dot = z3.Function("dot", MatSort, MatSort, MatSort)
+mat_T = z3.Function("T", MatSort, MatSort)
+eigh_vals = z3.Function("eigh.w", MatSort, MatSort, MatSort)
+eigh_vecs = z3.Function("eigh.V", MatSort, MatSort, MatSort)
+mat_cols = z3.Function("cols", MatSort, z3.IntSort(), MatSort)  # M[:, :k]
+mat_zeros_like = z3.Function("zeros_like", MatSort, MatSort)
+
+
+class SMat(Value):
+    """A matrix known only as a term of matrix algebra; shape is (rows, cols) of z3 ints."""
+
+    def __init__(self, t, shape):
+        self.t = t
+        self.shape = shape
+
+    def __repr__(self):
+        return f"SMat({self.t})"
+
+    def getattr_model(self, interp, name):
+        if name == "T":
+            return SMat(mat_T(self.t), (self.shape[1], self.shape[0]) if len(self.shape) == 2 else self.shape)
+        if name == "shape":
+            return tuple(wrap(s) if z3.is_expr(s) else s for s in self.shape)
+        if name in ("min", "max", "sum"):
+            raise OutsideSubset(f"{name} of an opaque matrix")
+        raise OutsideSubset(f"attribute {name} of an opaque matrix")
+
+
+def _mat_dot(interp, args, kwargs):
+    a, b = interp.resolve(args[0]), interp.resolve(args[1])
+    if isinstance(a, SMat) and isinstance(b, SMat):
+        return SMat(mat_dot(a.t, b.t), (a.shape[0], b.shape[-1]))
+    if all_concrete(args):
+        return interp.native(np.dot, args, kwargs)
+    raise OutsideSubset("np.dot of non-opaque symbolic operands")
+
+
+MODELS[np.dot] = _mat_dot
+
+_prev_zeros_like = MODELS[np.zeros_like]
+
+
+def _zeros_like2(interp, args, kwargs):
+    a = interp.resolve(args[0])
+    if isinstance(a, SMat):
+        return SMat(mat_zeros_like(a.t), a.shape)
+    return _prev_zeros_like(interp, args, kwargs)
+
+
+MODELS[np.zeros_like] = _zeros_like2
+
+_prev_subscript = subscript
+
+
+def subscript(interp, obj, idx):  # noqa: F811
+    if isinstance(obj, SMat):
+        # only M[:, :k] is modelled
+        if isinstance(idx, tuple) and len(idx) == 2 and idx[0] == slice(None, None, None) and isinstance(idx[1], slice) and idx[1].start is None and idx[1].step is None:
+            k = to_z3(interp.resolve(idx[1].stop))
+            return SMat(mat_cols(obj.t, k), (obj.shape[0], k))
+        raise OutsideSubset("subscript of an opaque matrix")
+    return _prev_subscript(interp, obj, idx)
